@@ -1,4 +1,5 @@
 import DryocVerif.Proofs.SecretBox
+import DryocVerif.Proofs.ResidueExtra
 import DryocVerif.Properties.C01
 import DryocVerif.Properties.C03
 /-
@@ -19,9 +20,16 @@ well-formedness assumption, no cryptographic assumption):
 * `reject_of_mac_ne_*` : authenticator mismatch gives `Err` with the buffer unchanged;
 * `untampered_accepted_*` : re-export of the round trips of C01;
 * `stream_*`       : the same four facts for the secretstream `pull` (re-export of C03).
-* `body_tamper_*`, `key_nonce_flip_*`, `accept_imp_collision_*_boxPrims` : the cryptographic residue made
-                   explicit — accepting a modified body / another key or nonce IS a collision of the
-                   one-time authenticator (section "the cryptographic residue").
+* `body_tamper_*`, `key_nonce_flip_*`, `epk_flip_*`, `stream_header_key_flip_*`,
+  `accept_imp_collision_*_boxPrims` : the cryptographic residue made
+                   explicit — accepting a modified body / another key, nonce, ephemeral key or stream
+                   header IS a collision of the one-time authenticator (section "the cryptographic
+                   residue").
+* `body_change_not_always_rejected_boxPrims` : what is NOT claimed.  "Every body change is rejected" is
+                   FALSE for someone who knows the key: for every key and nonce two different 32-byte
+                   bodies are accepted with one tag (Poly1305 collisions under a known one-time key are
+                   elementary).  The property is about an attacker WITHOUT the key; single-bit flips and
+                   the like remain enumerated by the tests.
 
 `expectedTag P key nonce c = P.mac ((P.stream key nonce (32 + c.length)).take 32) c` and
 `cryptXor P key nonce c = xorBytes c ((P.stream key nonce (32 + c.length)).drop 32)` are
@@ -372,6 +380,83 @@ theorem tag_tamper_rejected_boxOpenEasyInplace (P : Prims) (ct t' n pk sk : Byte
     (hlen : t'.length = 16) (hne : t' ≠ ct.take 16) :
     boxOpenEasyInplace P (t' ++ ct.drop 16) n pk sk = ⟨.err, t' ++ ct.drop 16⟩ :=
   tag_tamper_rejected_openEasyInplace P ct t' n _ hacc hlen hne
+
+/-! ## crypto_box_open_detached_afternm(_inplace): the secretbox decision under the caller's precomputed key -/
+
+theorem boxOpenDetachedAfternm_decision (P : Prims) (buf mac c n k : Bytes) :
+    boxOpenDetachedAfternm P buf mac c n k
+      = if buf.length < c.length then ⟨.panic, buf⟩
+        else if mac = expectedTag P k n c
+          then ⟨.ok (), cryptXor P k n c ++ buf.drop c.length⟩
+          else ⟨.err, buf⟩ :=
+  openDetached_eq P buf mac c n k
+
+/-- `crypto_box_open_detached_afternm` returns `Ok` iff the buffer is large enough and the authenticator
+recomputed under the precomputed key equals the presented one -/
+theorem boxOpenDetachedAfternm_ok_iff (P : Prims) (buf mac c n k : Bytes) :
+    (boxOpenDetachedAfternm P buf mac c n k).res = .ok () ↔
+      c.length ≤ buf.length ∧ P.mac ((P.stream k n (32 + c.length)).take 32) c = mac :=
+  openDetached_ok_iff P buf mac c n k
+
+theorem boxOpenDetachedAfternm_panic_iff (P : Prims) (buf mac c n k : Bytes) :
+    (boxOpenDetachedAfternm P buf mac c n k).res = .panic ↔ buf.length < c.length :=
+  openDetached_panic_iff P buf mac c n k
+
+theorem boxOpenDetachedAfternm_ok_buf (P : Prims) (buf mac c n k : Bytes)
+    (h : (boxOpenDetachedAfternm P buf mac c n k).res = .ok ()) :
+    (boxOpenDetachedAfternm P buf mac c n k).buf
+      = xorBytes c ((P.stream k n (32 + c.length)).drop 32) ++ buf.drop c.length :=
+  openDetached_ok_buf P buf mac c n k h
+
+theorem reject_of_mac_ne_boxOpenDetachedAfternm (P : Prims) (buf mac c n k : Bytes)
+    (hbuf : c.length ≤ buf.length)
+    (hne : P.mac ((P.stream k n (32 + c.length)).take 32) c ≠ mac) :
+    boxOpenDetachedAfternm P buf mac c n k = ⟨.err, buf⟩ :=
+  reject_of_mac_ne_openDetached P buf mac c n k hbuf hne
+
+/-- an accepted `(mac, c)` with any other 16 bytes as authenticator is rejected, buffer untouched -/
+theorem tag_tamper_rejected_boxOpenDetachedAfternm (P : Prims) (buf mac mac' c n k : Bytes)
+    (hacc : (boxOpenDetachedAfternm P buf mac c n k).res = .ok ()) (hne : mac' ≠ mac) :
+    boxOpenDetachedAfternm P buf mac' c n k = ⟨.err, buf⟩ :=
+  tag_tamper_rejected_openDetached P buf mac mac' c n k hacc hne
+
+theorem boxOpenDetachedAfternmInplace_decision (P : Prims) (data mac n k : Bytes) :
+    boxOpenDetachedAfternmInplace P data mac n k
+      = if mac = expectedTag P k n data then ⟨.ok (), cryptXor P k n data⟩ else ⟨.err, data⟩ :=
+  openDetachedInplace_eq P data mac n k
+
+theorem boxOpenDetachedAfternmInplace_ok_iff (P : Prims) (data mac n k : Bytes) :
+    (boxOpenDetachedAfternmInplace P data mac n k).res = .ok () ↔
+      P.mac ((P.stream k n (32 + data.length)).take 32) data = mac :=
+  openDetachedInplace_ok_iff P data mac n k
+
+theorem boxOpenDetachedAfternmInplace_never_panics (P : Prims) (data mac n k : Bytes) :
+    (boxOpenDetachedAfternmInplace P data mac n k).res ≠ .panic :=
+  openDetachedInplace_never_panics P data mac n k
+
+theorem boxOpenDetachedAfternmInplace_ok_buf (P : Prims) (data mac n k : Bytes)
+    (h : (boxOpenDetachedAfternmInplace P data mac n k).res = .ok ()) :
+    (boxOpenDetachedAfternmInplace P data mac n k).buf
+      = xorBytes data ((P.stream k n (32 + data.length)).drop 32) :=
+  openDetachedInplace_ok_buf P data mac n k h
+
+theorem reject_of_mac_ne_boxOpenDetachedAfternmInplace (P : Prims) (data mac n k : Bytes)
+    (hne : P.mac ((P.stream k n (32 + data.length)).take 32) data ≠ mac) :
+    boxOpenDetachedAfternmInplace P data mac n k = ⟨.err, data⟩ :=
+  reject_of_mac_ne_openDetachedInplace P data mac n k hne
+
+theorem tag_tamper_rejected_boxOpenDetachedAfternmInplace (P : Prims) (data mac mac' n k : Bytes)
+    (hacc : (boxOpenDetachedAfternmInplace P data mac n k).res = .ok ()) (hne : mac' ≠ mac) :
+    boxOpenDetachedAfternmInplace P data mac' n k = ⟨.err, data⟩ :=
+  tag_tamper_rejected_openDetachedInplace P data mac mac' n k hacc hne
+
+/-- the forms that take the key pair are the `afternm` forms under `crypto_box_beforenm` -/
+theorem boxOpenDetached_eq_afternm (P : Prims) (buf mac c n pk sk : Bytes) :
+    boxOpenDetached P buf mac c n pk sk = boxOpenDetachedAfternm P buf mac c n (beforenm P pk sk) := rfl
+
+theorem boxOpenDetachedInplace_eq_afternm (P : Prims) (data mac n pk sk : Bytes) :
+    boxOpenDetachedInplace P data mac n pk sk
+      = boxOpenDetachedAfternmInplace P data mac n (beforenm P pk sk) := rfl
 
 /-! ## crypto_box_seal_open: layout `epk(32) ‖ tag(16) ‖ c`, 48 bytes of overhead,
 key `beforenm P epk rsk`, nonce `sealNonce P epk rpk` -/
@@ -803,6 +888,155 @@ theorem key_nonce_flip_accept_imp_tag_eq_openEasy (P : Prims) (buf buf' ct n k n
   obtain ⟨-, -, h2⟩ := (openEasy_ok_iff P buf' ct n' k').1 h'
   rw [h1, h2]
 
+/-- the same for `DryocSecretBox::decrypt`: one object accepted under `(k, n)` and under `(k', n')` -/
+theorem key_nonce_flip_accept_imp_tag_eq_objDecrypt (P : Prims) (b : Box) (n k n' k' m m' : Bytes)
+    (h : objDecrypt P b n k = .ok m) (h' : objDecrypt P b n' k' = .ok m') :
+    P.mac ((P.stream k n (32 + b.data.length)).take 32) b.data
+      = P.mac ((P.stream k' n' (32 + b.data.length)).take 32) b.data := by
+  obtain ⟨h1, -⟩ := (objDecrypt_ok_iff P b n k m).1 h
+  obtain ⟨h2, -⟩ := (objDecrypt_ok_iff P b n' k' m').1 h'
+  rw [h1, h2]
+
+/-- rejection form for the object: under another key / nonce whose expected tag differs, `Err` -/
+theorem key_nonce_flip_rejected_of_tag_ne_objDecrypt (P : Prims) (b : Box) (n k n' k' m : Bytes)
+    (h : objDecrypt P b n k = .ok m)
+    (hne : P.mac ((P.stream k' n' (32 + b.data.length)).take 32) b.data
+        ≠ P.mac ((P.stream k n (32 + b.data.length)).take 32) b.data) :
+    objDecrypt P b n' k' = .err := by
+  obtain ⟨h1, -⟩ := (objDecrypt_ok_iff P b n k m).1 h
+  rw [objDecrypt_err_iff, ← h1]
+  exact hne
+
+/-- the same for `DryocBox::decrypt` (another nonce, another peer key or another secret key) -/
+theorem key_nonce_flip_accept_imp_tag_eq_objBoxDecrypt (P : Prims) (b : Box)
+    (n pk sk n' pk' sk' m m' : Bytes)
+    (h : objBoxDecrypt P b n pk sk = .ok m) (h' : objBoxDecrypt P b n' pk' sk' = .ok m') :
+    P.mac ((P.stream (beforenm P pk sk) n (32 + b.data.length)).take 32) b.data
+      = P.mac ((P.stream (beforenm P pk' sk') n' (32 + b.data.length)).take 32) b.data :=
+  key_nonce_flip_accept_imp_tag_eq_objDecrypt P b n _ n' _ m m' h h'
+
+/-- **Ephemeral-key flip of a sealed box.**  Two sealed boxes that agree from byte 32 on (same tag, same
+body) but may differ in the 32-byte ephemeral public key, opened by recipients `(rpk, rsk)` and
+`(rpk', rsk')` (take them equal for the pure ephemeral-key flip): if both are accepted, the authenticators
+of the common body under the two derived (key, nonce) pairs — `beforenm(epk, rsk)`,
+`BLAKE2b-24(epk ‖ rpk)` — are equal.  So flipping a bit of the ephemeral key (or opening with another
+recipient key) is accepted only on a coincidence of two MACs under two different one-time keys. -/
+theorem epk_flip_accept_imp_tag_eq_sealOpen (P : Prims) (buf buf' ct ct' rpk rsk rpk' rsk' : Bytes)
+    (hrest : ct'.drop 32 = ct.drop 32)
+    (h : (sealOpen P buf ct rpk rsk).res = .ok ())
+    (h' : (sealOpen P buf' ct' rpk' rsk').res = .ok ()) :
+    ct'.length = ct.length ∧
+    P.mac ((P.stream (beforenm P (ct.take 32) rsk) (sealNonce P (ct.take 32) rpk)
+              (32 + (ct.length - 48))).take 32) (ct.drop 48)
+      = P.mac ((P.stream (beforenm P (ct'.take 32) rsk') (sealNonce P (ct'.take 32) rpk')
+              (32 + (ct.length - 48))).take 32) (ct.drop 48) := by
+  obtain ⟨l1, -, h1⟩ := (sealOpen_ok_iff P buf ct rpk rsk).1 h
+  obtain ⟨l2, -, h2⟩ := (sealOpen_ok_iff P buf' ct' rpk' rsk').1 h'
+  have hl : ct'.length = ct.length := by
+    have := congrArg List.length hrest
+    rw [List.length_drop, List.length_drop] at this
+    omega
+  have hd : ct'.drop 48 = ct.drop 48 := by
+    have := congrArg (List.drop 16) hrest
+    rwa [List.drop_drop, List.drop_drop] at this
+  rw [hl, hd, hrest] at h2
+  exact ⟨hl, by rw [h1, h2]⟩
+
+/-- rejection form: the sealed box with another ephemeral key in front is rejected (buffer untouched)
+unless the two authenticators coincide -/
+theorem epk_flip_rejected_of_tag_ne_sealOpen (P : Prims) (buf buf' ct ct' rpk rsk rpk' rsk' : Bytes)
+    (hrest : ct'.drop 32 = ct.drop 32) (hl : ct'.length = ct.length)
+    (h : (sealOpen P buf ct rpk rsk).res = .ok ())
+    (hne : P.mac ((P.stream (beforenm P (ct'.take 32) rsk') (sealNonce P (ct'.take 32) rpk')
+              (32 + (ct.length - 48))).take 32) (ct.drop 48)
+        ≠ P.mac ((P.stream (beforenm P (ct.take 32) rsk) (sealNonce P (ct.take 32) rpk)
+              (32 + (ct.length - 48))).take 32) (ct.drop 48)) :
+    sealOpen P buf' ct' rpk' rsk' = ⟨.err, buf'⟩ := by
+  obtain ⟨-, -, h1⟩ := (sealOpen_ok_iff P buf ct rpk rsk).1 h
+  have hd : ct'.drop 48 = ct.drop 48 := by
+    have := congrArg (List.drop 16) hrest
+    rwa [List.drop_drop, List.drop_drop] at this
+  apply reject_of_mac_ne_sealOpen
+  rw [hl, hd, hrest, ← h1]
+  exact hne
+
+/-- the same for `DryocBox::unseal`: the object with ephemeral key `e` unsealed by `(rpk, rsk)`, and the
+same tag and data with ephemeral key `e'` unsealed by `(rpk', rsk')` -/
+theorem epk_flip_accept_imp_tag_eq_objUnseal (P : Prims) (b : Box) (e e' rpk rsk rpk' rsk' m m' : Bytes)
+    (he : b.epk = some e)
+    (h : objUnseal P b rpk rsk = .ok m)
+    (h' : objUnseal P { b with epk := some e' } rpk' rsk' = .ok m') :
+    P.mac ((P.stream (beforenm P e rsk) (sealNonce P e rpk) (32 + b.data.length)).take 32) b.data
+      = P.mac ((P.stream (beforenm P e' rsk') (sealNonce P e' rpk') (32 + b.data.length)).take 32)
+          b.data := by
+  obtain ⟨x, hx, h1, -⟩ := (objUnseal_ok_iff P b rpk rsk m).1 h
+  obtain ⟨y, hy, h2, -⟩ := (objUnseal_ok_iff P _ rpk' rsk' m').1 h'
+  rw [he] at hx
+  cases hx
+  simp only [Option.some.injEq] at hy
+  subst hy
+  simp only at h2
+  rw [h1, h2]
+
+/-- rejection form for `DryocBox::unseal` -/
+theorem epk_flip_rejected_of_tag_ne_objUnseal (P : Prims) (b : Box) (e e' rpk rsk rpk' rsk' m : Bytes)
+    (he : b.epk = some e)
+    (h : objUnseal P b rpk rsk = .ok m)
+    (hne : P.mac ((P.stream (beforenm P e' rsk') (sealNonce P e' rpk') (32 + b.data.length)).take 32)
+          b.data
+        ≠ P.mac ((P.stream (beforenm P e rsk) (sealNonce P e rpk) (32 + b.data.length)).take 32)
+          b.data) :
+    objUnseal P { b with epk := some e' } rpk' rsk' = .err := by
+  obtain ⟨x, hx, h1, -⟩ := (objUnseal_ok_iff P b rpk rsk m).1 h
+  rw [he] at hx
+  cases hx
+  unfold objUnseal
+  simp only
+  rw [objBoxDecrypt_err_iff]
+  simp only
+  rw [← h1]
+  exact hne
+
+/-! ### secretstream: another header or another key at `init_pull` -/
+
+section StreamFlip
+open DryocVerif.Model.SecretStream (push pull macInput initState)
+open DryocVerif.Proofs.SecretStream (pullBlock macKey ctMac ctBody)
+
+/-- **Header / key flip of a stream.**  The first message pushed after `init_push(header, key)` and pulled
+after `init_pull(header', key')`: acceptance means that the transmitted authenticator, which is the MAC
+under the one-time key of the sender's initial state, is also the MAC under the one-time key of the
+receiver's initial state `HChaCha20(key', header'[0..16])`, nonce `1 ‖ header'[16..24]`.
+(`C03.accept_at_state_imp_mac_eq` at `t := initState P header' key'`.) -/
+theorem stream_header_key_flip_accept_imp_mac_eq (P : Model.SecretStream.Prims)
+    (hP : Proofs.SecretStream.WF P) (header key header' key' m ad : Bytes) (tag : UInt8)
+    (c : Bytes) (s' : Model.SecretStream.State)
+    (h : push P (initState P header key) (m.length + 17) m ad tag = .ok (c, s'))
+    (ad' buf : Bytes) (tagv : UInt8) (n : Nat)
+    (hacc : (pull P (initState P header' key') buf tagv c ad').res = .ok n) :
+    n = m.length ∧
+    P.mac (macKey P (initState P header key))
+        (macInput ad (pullBlock P (initState P header key) c) (ctBody c))
+      = P.mac (macKey P (initState P header' key'))
+        (macInput ad' (pullBlock P (initState P header' key') c) (ctBody c)) := by
+  obtain ⟨h1, h2, h3⟩ := C03.accept_at_state_imp_mac_eq P hP (initState P header key) m ad tag c s' h
+    (initState P header' key') ad' buf tagv n hacc
+  exact ⟨h1, by rw [← h2, ← h3]⟩
+
+/-- … and a header that differs in its last 8 bytes really gives another nonce … -/
+theorem stream_initState_nonce_ne (P : Model.SecretStream.Prims) (header header' key : Bytes)
+    (hne : (header'.drop 16).take 8 ≠ (header.drop 16).take 8) :
+    (initState P header' key).nonce ≠ (initState P header key).nonce := by
+  intro h
+  exact hne (List.append_cancel_left h)
+
+/-- … while its first 16 bytes and the key enter only through the HChaCha20 subkey -/
+theorem stream_initState_key (P : Model.SecretStream.Prims) (header key : Bytes) :
+    (initState P header key).k = P.hchacha key (header.take 16) ∧
+    (initState P header key).nonce = [1, 0, 0, 0] ++ (header.drop 16).take 8 := ⟨rfl, rfl⟩
+
+end StreamFlip
+
 /-! ### the driver's primitives: one one-time key for every length -/
 
 open DryocVerif.Model (boxPrims)
@@ -856,6 +1090,33 @@ theorem body_change_rejected_of_no_collision_boxPrims (buf buf' tag c c' n k : B
   rw [← expectedTag_def, SecretBoxExtra.expectedTag_boxPrims,
     ← ((openDetached_ok_iff_boxPrims buf tag c n k).1 h).2]
   exact hnc
+
+/-- **What is NOT true: "every body change is rejected".**  Whoever knows the key can compute the one-time
+Poly1305 key `K` and its clamped `r`; the two 32-byte bodies `01 00³¹` and `00¹⁶ ‖ r` then have the same
+authenticator (`((1 + 2^128)·r + 2^128)·r = (2^128·r + (r + 2^128))·r`), for EVERY key and nonce
+(`Proofs.ResidueExtra.poly1305_collision`).  So with the driver's primitives `crypto_secretbox_open_detached`
+accepts two DIFFERENT bodies of the same length with one tag.  Rejection of body changes is a statement about
+an attacker without the key (and about single-bit flips, which the tests enumerate), not an arithmetic fact. -/
+theorem body_change_not_always_rejected_boxPrims_every_key (k n : Bytes) :
+    ∃ tag c c', c ≠ c' ∧ c'.length = c.length ∧ tag.length = 16 ∧
+      (openDetached boxPrims (zeros 32) tag c n k).res = .ok () ∧
+      (openDetached boxPrims (zeros 32) tag c' n k).res = .ok () :=
+  ResidueExtra.body_collision_boxPrims k n
+
+/-- the instance at the all-zero key and nonce -/
+theorem body_change_not_always_rejected_boxPrims :
+    ∃ tag c c', c ≠ c' ∧ c'.length = c.length ∧
+      (openDetached boxPrims (zeros 32) tag c (zeros 24) (zeros 32)).res = .ok () ∧
+      (openDetached boxPrims (zeros 32) tag c' (zeros 24) (zeros 32)).res = .ok () :=
+  let ⟨tag, c, c', h1, h2, _, h3, h4⟩ := ResidueExtra.body_collision_boxPrims (zeros 32) (zeros 24)
+  ⟨tag, c, c', h1, h2, h3, h4⟩
+
+/-- the colliding pair written out: RFC 8439 Poly1305 of `01 00³¹` and of `00¹⁶ ‖ r` agree under every
+32-byte (indeed every) one-time key -/
+theorem poly1305_known_key_collision (key : Bytes) :
+    ResidueExtra.collA ≠ ResidueExtra.collB key ∧
+    Spec.Poly1305.mac key ResidueExtra.collA = Spec.Poly1305.mac key (ResidueExtra.collB key) :=
+  ⟨ResidueExtra.collA_ne_collB key, ResidueExtra.poly1305_collision key⟩
 
 /-- the same for `crypto_secretbox_open_easy`: two boxes of any lengths with the same first 16 bytes -/
 theorem accept_imp_collision_openEasy_boxPrims (buf buf' ct ct' n k : Bytes)
@@ -1080,18 +1341,123 @@ example :
     key_nonce_flip_rejected_of_tag_ne P (zeros 3) (zeros 3) _ _ toyNonce [9] toyNonce [8]
       (by decide) (by decide) (by decide)⟩
 
-/-- non-vacuity witness for the `boxPrims` collision theorems: an accepted `(tag, c)` exists for the real
-primitives (`C01.secretbox_detached_roundtrip_concrete`), so the acceptance hypotheses are satisfiable;
-both are instantiated with it (no genuine Poly1305 collision is known — that is the point of stating the
-residue), and `body_change_rejected_of_no_collision_boxPrims` / the `ok_iff` forms are hypothesis-free
-beyond it -/
+/-- non-vacuity witness for the `boxPrims` collision theorems with `c ≠ c'`: for every key and nonce a
+GENUINE Poly1305 collision exists (`body_change_not_always_rejected_boxPrims_every_key`: under a known one-time
+key collisions are elementary), so all hypotheses of `accept_imp_collision_boxPrims` are jointly satisfiable
+with two DIFFERENT bodies, and its conclusion is then a true collision `mac K c = mac K c'`, `c ≠ c'`.
+(What no one is expected to produce is such a pair WITHOUT knowing `K` — that is the residue.) -/
+example : ∃ tag c c', c ≠ c' ∧
+    (openDetached Model.boxPrims (zeros 32) tag c (zeros 24) (zeros 32)).res = .ok () ∧
+    (openDetached Model.boxPrims (zeros 32) tag c' (zeros 24) (zeros 32)).res = .ok () ∧
+    Spec.Poly1305.mac (Spec.Salsa20.xsalsa20Stream (zeros 32) (zeros 24) 0 32) c
+      = Spec.Poly1305.mac (Spec.Salsa20.xsalsa20Stream (zeros 32) (zeros 24) 0 32) c' := by
+  obtain ⟨tag, c, c', hne, -, h, h'⟩ := body_change_not_always_rejected_boxPrims
+  exact ⟨tag, c, c', hne, h, h', accept_imp_collision_boxPrims _ _ _ _ _ _ _ h h'⟩
+
+/-- … and the hypothesis `hnc` of `body_change_rejected_of_no_collision_boxPrims` fails for that pair: the
+second body is accepted, not rejected -/
+example : ∃ tag c c', c ≠ c' ∧
+    (openDetached Model.boxPrims (zeros 32) tag c (zeros 24) (zeros 32)).res = .ok () ∧
+    openDetached Model.boxPrims (zeros 32) tag c' (zeros 24) (zeros 32) ≠ ⟨.err, zeros 32⟩ := by
+  obtain ⟨tag, c, c', hne, -, h, h'⟩ := body_change_not_always_rejected_boxPrims
+  exact ⟨tag, c, c', hne, h, fun e => by rw [e] at h'; cases h'⟩
+
+/-- an honestly sealed `(tag, c)` is accepted for the real primitives (`C01.secretbox_detached_roundtrip_concrete`):
+the acceptance hypotheses are also satisfiable by a genuine ciphertext -/
 example : ∃ tag c, (openDetached Model.boxPrims (zeros 3) tag c (zeros 24) (zeros 32)).res = .ok () ∧
     Spec.Poly1305.mac (Spec.Salsa20.xsalsa20Stream (zeros 32) (zeros 24) 0 32) c = tag := by
   obtain ⟨c, tag, -, hc, -, h⟩ :=
     C01.secretbox_detached_roundtrip_concrete (zeros 32) (zeros 24) toyMsg (zeros 3) (by decide) rfl
   have h' : (openDetached Model.boxPrims (zeros 3) tag c (zeros 24) (zeros 32)).res = .ok () := by rw [h]
-  have := accept_imp_collision_boxPrims _ _ _ _ _ _ _ h' h'
   exact ⟨tag, c, h', ((openDetached_ok_iff_boxPrims _ _ _ _ _).1 h').2⟩
+
+/-! ### witnesses for the second strengthening round -/
+
+/-- non-vacuity witness for the `afternm` opening forms: the toy box under the precomputed key, tag replaced -/
+example : boxOpenDetachedAfternm toyPrims (zeros 3) (List.replicate 16 0xff) (toyCt.drop 16) toyNonce toyKey
+    = ⟨.err, zeros 3⟩ :=
+  tag_tamper_rejected_boxOpenDetachedAfternm toyPrims _ (toyCt.take 16) _ _ _ _ (by decide) (by decide)
+
+example : boxOpenDetachedAfternmInplace toyPrims (toyCt.drop 16) (List.replicate 16 0xff) toyNonce toyKey
+    = ⟨.err, toyCt.drop 16⟩ :=
+  tag_tamper_rejected_boxOpenDetachedAfternmInplace toyPrims _ (toyCt.take 16) _ _ _ (by decide) (by decide)
+
+example : (boxOpenDetachedAfternm toyPrims (zeros 3) (toyCt.take 16) (toyCt.drop 16) toyNonce toyKey).res = .ok () :=
+  (boxOpenDetachedAfternm_ok_iff toyPrims _ _ _ _ _).2 (by decide)
+
+/-- non-vacuity witness for `key_nonce_flip_accept_imp_tag_eq_objDecrypt`: the toy authenticator ignores the key -/
+example :=
+  key_nonce_flip_accept_imp_tag_eq_objDecrypt toyPrims ⟨none, toyCt.take 16, toyCt.drop 16⟩ toyNonce toyKey
+    toyNonce toyKey toyMsg toyMsg (by decide) (by decide)
+
+/-- a primitive whose authenticator depends on the key: `hne` of `key_nonce_flip_rejected_of_tag_ne_objDecrypt`
+is satisfiable; the object sealed under key `[9]` is rejected under `[8]` -/
+example :
+    let P : Prims := { toyPrims with stream := fun k _ l => List.replicate l (k.headD 0),
+                                     mac := fun k m => ((k ++ m) ++ zeros 16).take 16 }
+    ∃ b, objEncrypt P toyMsg toyNonce [9] = .ok b ∧ objDecrypt P b toyNonce [9] = .ok toyMsg ∧
+      objDecrypt P b toyNonce [8] = .err := by
+  intro P
+  exact ⟨_, rfl, by decide,
+    key_nonce_flip_rejected_of_tag_ne_objDecrypt P _ toyNonce [9] toyNonce [8] toyMsg (by decide) (by decide)⟩
+
+/-- non-vacuity witness for `epk_flip_accept_imp_tag_eq_sealOpen` (toy authenticator: key-independent, so the
+sealed box with another ephemeral key IS accepted; both hypotheses hold with `ct' ≠ ct`) -/
+example : ∃ ct, boxSeal toyPrims (zeros 51) toyMsg toyRpk toyEsk = .ok ct ∧
+    (List.replicate 32 7 ++ ct.drop 32) ≠ ct ∧
+    (sealOpen toyPrims (zeros 3) (List.replicate 32 7 ++ ct.drop 32) toyRpk toyRsk).res = .ok () :=
+  ⟨_, rfl, by decide, by decide⟩
+
+example : ∃ ct, boxSeal toyPrims (zeros 51) toyMsg toyRpk toyEsk = .ok ct ∧
+    (List.replicate 32 7 ++ ct.drop 32).length = ct.length :=
+  ⟨_, rfl, (epk_flip_accept_imp_tag_eq_sealOpen toyPrims (zeros 3) (zeros 3) _ _ toyRpk toyRsk toyRpk toyRsk
+    (by decide) (by decide) (by decide)).1⟩
+
+/-- a primitive whose key stream and authenticator depend on the key (first byte of the DH result) -/
+def keyedPrims : Prims :=
+  { toyPrims with stream := fun k _ l => List.replicate l (k.headD 0),
+                  mac := fun k m => ((k ++ m) ++ zeros 16).take 16 }
+
+/-- the sealed box of `toyMsg` under `keyedPrims` -/
+def keyedSealed : Bytes :=
+  match boxSeal keyedPrims (zeros 51) toyMsg toyRpk toyEsk with
+  | .ok c => c
+  | _ => []
+
+/-- non-vacuity witness for `epk_flip_rejected_of_tag_ne_sealOpen`: with `keyedPrims` the genuine sealed box
+is accepted, and with another ephemeral key in front it is rejected (`hne` holds by evaluation) -/
+example : boxSeal keyedPrims (zeros 51) toyMsg toyRpk toyEsk = .ok keyedSealed ∧
+    (sealOpen keyedPrims (zeros 3) keyedSealed toyRpk toyRsk).res = .ok () ∧
+    sealOpen keyedPrims (zeros 3) (List.replicate 32 7 ++ keyedSealed.drop 32) toyRpk toyRsk
+      = ⟨.err, zeros 3⟩ :=
+  ⟨by decide, by decide,
+    epk_flip_rejected_of_tag_ne_sealOpen keyedPrims (zeros 3) (zeros 3) keyedSealed
+      (List.replicate 32 7 ++ keyedSealed.drop 32) toyRpk toyRsk toyRpk toyRsk
+      (by decide) (by decide) (by decide) (by decide)⟩
+
+/-- non-vacuity witness for `epk_flip_accept_imp_tag_eq_objUnseal` -/
+example : ∃ b, objSeal toyPrims toyMsg toyRpk toyEsk = .ok b ∧
+    objUnseal toyPrims { b with epk := some (List.replicate 32 7) } toyRpk toyRsk = .ok toyMsg :=
+  ⟨_, rfl, by decide⟩
+
+example :=
+  epk_flip_accept_imp_tag_eq_objUnseal toyPrims
+    ⟨some (toyPrims.dhBase toyEsk), toyCt.take 16, toyCt.drop 16⟩ (toyPrims.dhBase toyEsk)
+    (List.replicate 32 7) toyRpk toyRsk toyRpk toyRsk toyMsg toyMsg rfl (by decide) (by decide)
+
+/-- non-vacuity witness for `stream_header_key_flip_accept_imp_mac_eq`: the toy stream primitives ignore key
+and nonce, so the first message pushed under `(header, key)` is accepted under another header and key -/
+example : ∃ c s', Model.SecretStream.push C03.toyP
+      (Model.SecretStream.initState C03.toyP (zeros 24) (zeros 32)) 18 [0x41] [0x42] 0 = .ok (c, s') ∧
+    (Model.SecretStream.pull C03.toyP
+      (Model.SecretStream.initState C03.toyP (List.replicate 24 5) (List.replicate 32 6)) [9] 0 c [0x42]).res
+        = .ok 1 :=
+  ⟨_, _, rfl, by decide⟩
+
+/-- non-vacuity witness for `stream_initState_nonce_ne`: headers differing in byte 16 -/
+example : (Model.SecretStream.initState C03.toyP (zeros 16 ++ [1] ++ zeros 7) (zeros 32)).nonce
+    ≠ (Model.SecretStream.initState C03.toyP (zeros 24) (zeros 32)).nonce :=
+  stream_initState_nonce_ne C03.toyP _ _ _ (by decide)
 
 end NonVacuity
 
